@@ -133,8 +133,11 @@ def gen(rng, tier):
         sr = tuple(Fraction(rng.choice([4, 8, 16])) for _ in range(ndim))
     step = rng.choice(STEPS)
     stop_rel = rng.choice(STOPS)
-    return dict(frames=frames, sr=sr, memory=rng.choice([0, 0, 1, 2]), ndim=ndim, max_size=rng.choice([2, 3, 3, 4, 5]),
-                strategy=rng.choice(['recursive', 'nonrecursive', 'numba', 'hybrid', 'hybrid', 'auto']), step=step, stop_rel=stop_rel)
+    c = dict(frames=frames, sr=sr, memory=rng.choice([0, 0, 1, 2]), ndim=ndim, max_size=rng.choice([2, 3, 3, 4, 5]),
+             strategy=rng.choice(['recursive', 'nonrecursive', 'numba', 'hybrid', 'hybrid', 'auto']), step=step, stop_rel=stop_rel)
+    if rng.random() < 0.3:
+        c['plain_limit'] = rng.randint(1, c['max_size'] - 1) if c['max_size'] > 1 else None
+    return c
 
 
 def is_aniso(sr):
@@ -174,6 +177,8 @@ def degenerate(c):
 def jsonable(c, out):
     d = c02.jsonable(c, out)
     d['adaptive_step'] = str(c['step']); d['adaptive_stop_rel'] = str(c['stop_rel'])
+    if c.get('plain_limit') is not None:
+        d['plain_limit'] = c['plain_limit']
     return d
 
 
@@ -263,8 +268,10 @@ def ladder_fault(c, ranges, exact=True):
 def run_impl(c, ranges=None, faults=None):
     stop = float((min(c['sr']) if isinstance(c['sr'], tuple) else c['sr']) * c['stop_rel'])   # a tuple of equal ranges is treated by the code as that one range
     with record_ranges(ranges if ranges is not None else [], faults):
+        # c['plain_limit']: Linker.MAX_SUB_NET_SIZE set BELOW the adaptive limit (the default configuration has it above):
+        # with adaptive search the limit in force is MAX_SUB_NET_SIZE_ADAPTIVE alone
         return linkgen.run_link_iter(c['frames'], c['sr'], memory=c['memory'], link_strategy=c['strategy'], max_size=c['max_size'],
-                                     adaptive=(stop, float(c['step'])))
+                                     adaptive=(stop, float(c['step'])), plain_limit=c.get('plain_limit'))
 
 
 def corpus():
@@ -459,7 +466,7 @@ def replay(chk, path):
     frames = [np.array(f, dtype=float).reshape(len(f), -1) for f in cj['frames']]
     ndim = max([f.shape[1] for f in frames if f.size] or [1])
     c = dict(frames=[f.reshape(len(f), ndim) for f in frames], sr=(tuple(Fraction(x) for x in cj['search_range']) if isinstance(cj['search_range'], list) else Fraction(cj['search_range'])), memory=cj['memory'], ndim=ndim, max_size=cj['max_size'],
-             strategy=cj['link_strategy'], step=Fraction(cj['adaptive_step']), stop_rel=Fraction(cj['adaptive_stop_rel']))
+             strategy=cj['link_strategy'], step=Fraction(cj['adaptive_step']), stop_rel=Fraction(cj['adaptive_stop_rel']), plain_limit=cj.get('plain_limit'))
     ranges, faults = [], []
     out = run_impl(c, ranges, faults)
     rp = json.load(open(path))['replay']
